@@ -68,6 +68,14 @@ def run(ck):
     if corr and not ck.violations:
         last["broken"] = "correspondence enc model vs implementation"
         ck.violation("correspondence model/implementation no longer checks (%d cases) although the output equals the spec" % corr, last, found_input=False)
+    # the same question under SEEDED SCHEDULES of the real threads (scheduler shim): the file must be the documented one whatever
+    # the interleaving of workers and I/O thread (determinism of the format; the all-schedules statement is C03's theorem)
+    from props import C03
+    from props.conc import shim_driver
+    flags = ck.impl_flags
+    C03.end_to_end(ck, shim_driver(ck), 60 if big else 24)
+    ck.impl_flags = flags
+    ck.cov["encryptions_under_seeded_schedules"] = 60 if big else 24
     if ck.tier == "thorough":
         production_scale(ck)     # 40 MiB and > 4 GiB with the production constants (props/filegen.py)
     return finish_proof(ck, rule=("every length 0..%d" % (5 * CH + 1) if big else "140 cases, lengths k*chunk+{-17..1} and block boundaries first") +
